@@ -100,9 +100,10 @@ def bounds (isWord : Char → Bool) (sa eb : Option Line) (lines : List Line) : 
     match eb with
     | none => ((lines.length : Int), [])
     | some e => locate (linesContain isWord e lines)
-  -- if both requested and start_after >= end_before >= 0: diagnostic
+  -- if both requested and start_after > end_before >= 0: diagnostic (start_after already points past the marker line, so
+  -- equality is the legal case of the end marker on the very next line; the code before the repair tested `>=`)
   let d3 :=
-    if sa.isSome && eb.isSome && decide (startAfter ≥ endBefore) && decide (endBefore ≥ 0)
+    if sa.isSome && eb.isSome && decide (startAfter > endBefore) && decide (endBefore ≥ 0)
     then [Diag.order] else []
   -- if end_before == -1: end_before = len(lines)
   let endBefore := if endBefore = -1 then (lines.length : Int) else endBefore
